@@ -29,7 +29,7 @@ META = {
         'REDMONSTER on ormask, dilates each row with width 2*ngrow+1 using the edge-truncating smooth, multiplies invvar by the '
         'complement; C17.SKY-CAST - each & between the caller\'s mask and a uint64 flag value has an explicit conversion. '
         'C17.MEDIAN - djs_median does not pad with the non-repeating reflect mode of numpy.pad. C17.SMOOTH - smooth() uses the requested width made odd and returns its input unchanged only for widths below 3; C17.REJ-MASKS also: the model-less first pass hands back the input mask. C17.FLOAT-OUT - the arrays that djs_maskinterp fills with interpolated samples and djs_reject with scaled deviations are not allocated in the dtype of the data; C17.INMASK-TRUTH - djs_reject turns the caller\'s inmask into truth values before combining it bitwise; NOT decided: the explicit reflection slices of djs_median, maxrej/group logic, numerical interpolation values.'),
-    'floors': {'C17.INMASK-TRUTH': 2, 'C17.FLOAT-OUT': 2, 'C17.SMOOTH': 1, 'C17.MI-SITES': 2, 'C17.MI1-STORE': 6, 'C17.MI1-ORDER': 1, 'C17.GROW': 3, 'C17.REJ-MASKS': 10, 'C17.AESTH': 4,
+    'floors': {'C17.INMASK-TRUTH': 2, 'C17.FLOAT-OUT': 2, 'C17.SMOOTH': 1, 'C17.MI-SITES': 2, 'C17.MI1-STORE': 6, 'C17.MI1-ORDER': 1, 'C17.GROW': 4, 'C17.REJ-MASKS': 10, 'C17.AESTH': 4,
                'C17.SKY': 5, 'C17.SKY-CAST': 1, 'C17.MEDIAN': 1},
 }
 
@@ -304,6 +304,30 @@ def check_reject(ctx, repo):
     grow_if = [n for n in walk_local(f.node) if isinstance(n, ast.If) and src(n.test) in ('grow > 0', '0 < grow', 'grow')]
     ctx.need(grow_if, 'djs_reject: grow block not found')
     g = grow_if[0]
+    # the neighbours that are rejected are those of the points THIS pass rejected: the grow block works on the mask before it is
+    # combined with inmask (and the sticky outmask); grown afterwards, the holes of inmask spread as well - and with sticky=True the
+    # rejected region creeps outward on every pass
+    combos = []
+    for st in walk_local(f.node):
+        v = t = None
+        if isinstance(st, ast.AugAssign) and isinstance(st.op, ast.BitAnd):
+            v, t = st.value, st.target
+        elif isinstance(st, ast.Assign) and len(st.targets) == 1:
+            v, t = st.value, st.targets[0]
+        if v is None or not isinstance(t, ast.Name):
+            continue
+        if any(isinstance(x, ast.Name) and x.id in ('inmask', 'outmask') for x in ast.walk(v)) and (
+                isinstance(st, ast.AugAssign) or any(isinstance(x, ast.BinOp) and isinstance(x.op, ast.BitAnd) for x in ast.walk(v))
+                or any(isinstance(x, ast.Call) and call_name(x) in ('logical_and', 'where') for x in ast.walk(v))) \
+                and any(isinstance(x, ast.Name) and x.id == t.id for x in ast.walk(v)) or (isinstance(st, ast.AugAssign) and isinstance(st.op, ast.BitAnd)
+                                                                                         and any(isinstance(x, ast.Name) and x.id in ('inmask', 'outmask') for x in ast.walk(v))):
+            if st.lineno > 0 and not any(a is g for a in ancestors(st)):
+                combos.append(st)
+    early = [st for st in combos if st.lineno < g.lineno]
+    ctx.check('C17.GROW', bool(combos) and not early, f, early[0] if early else g, 'neighbours are grown before the mask is combined with inmask / outmask',
+              msg='djs_reject grows the rejected region after the mask was combined with inmask / outmask (`%s` at line %d): points the caller excluded, and '
+                  'with sticky=True the rejections of earlier passes, spread by `grow` pixels on every pass' % (
+                      src(early[0])[:50] if early else '', early[0].lineno if early else 0), construct='grow after mask combination')
     loops = [n for n in walk_local(g) if isinstance(n, ast.For)]
     if not loops:
         return check_grow_vectorised(ctx, f, fa, g)
